@@ -306,7 +306,7 @@ func symStrBinop(fr *frame, op token.Token, x, y value) value {
 		if op == token.ADD {
 			return absConcat(fr, x, y)
 		}
-		panic(pathEnd{stUnsupported, "comparison of abstract string"})
+		panic(pathEnd{stUnsupported, "comparison of abstract string at " + fr.pos() + " in " + fr.fn.String()})
 	}
 	xb, yb := strBytes(x), strBytes(y)
 	tt := fr.tt()
@@ -402,8 +402,16 @@ func absConcat(fr *frame, x, y value) value {
 }
 
 func absEq(fr *frame, x, y value) value {
+	// comparison with the empty string is decided by the length
+	for _, pair := range [][2]value{{x, y}, {y, x}} {
+		if s, ok := pair[1].(string); ok && s == "" {
+			if a, ok := pair[0].(absStr); ok {
+				return fr.vBool(fr.tt().Eq(fr.termOf(a.n), fr.tt().BV(64, 0)))
+			}
+		}
+	}
 	// equal abstract strings have equal lengths; beyond that unknown
-	panic(pathEnd{stUnsupported, "comparison of abstract string"})
+	panic(pathEnd{stUnsupported, "comparison of abstract string at " + fr.pos() + " in " + fr.fn.String()})
 }
 
 func absSlice(fr *frame, x absStr, lo, hi value) value {
